@@ -15,7 +15,7 @@ DIM = [31, 28, 31, 30, 31, 30, 31, 31, 30, 31, 30, 31]
 
 def h14a_directive(field, year, month, day, hour, minute, second, micro):
     """each numeric directive renders its calendar/clock field in the documented range and padding"""
-    assume(1000 <= year <= 9999 and 1 <= month <= 12 and 1 <= day <= 28)
+    assume(1000 <= year <= 9999 and 1 <= month <= 12 and 1 <= day <= 31)
     assume(0 <= hour <= 23 and 0 <= minute <= 59 and 0 <= second <= 59 and 0 <= micro <= 999999)
     if field in TIME_ONLY:
         # the directive reads clock fields only: one representative date, all clock values
@@ -23,6 +23,8 @@ def h14a_directive(field, year, month, day, hour, minute, second, micro):
     else:
         hour, minute, second, micro = 4, 5, 6, 7
         month = concretize(month)
+        is_leap = year % 4 == 0 and (year % 100 != 0 or year % 400 == 0)
+        assume(day <= DIM[month - 1] + (1 if (is_leap and month == 2) else 0))      # a valid calendar date
     value = datetime(year, month, day, hour, minute, second, micro)
     text = _decode_date_format_field(field, value)
     if field == "a":
@@ -182,8 +184,8 @@ HARNESSES = [
     Harness("H14a", h14a_directive,
             dict(field=Cases(NUMERIC), year=IntDom(), month=IntDom(), day=IntDom(), hour=IntDom(), minute=IntDom(), second=IntDom(),
                  micro=IntDom()),
-            bounds="clock directives x all hours, minutes, seconds, microseconds; calendar directives x all years 1000..9999, months, days 1..28 (symbolic)",
-            outside=["days 29..31 (month-length validity is datetime's)", "weekday/month names, W, ww, G", "locale",
+            bounds="clock directives x all hours, minutes, seconds, microseconds; calendar directives x all valid dates of years 1000..9999 (symbolic)",
+            outside=["weekday/month names, W, ww, G", "locale",
                      "years < 1000 (platform-dependent %Y padding)"],
             stubs=["datetime model: exact integer calendar arithmetic; strftime per the C standard in the C locale"]),
     _scan(0), _scan(1), _scan(2), _scan(3), _scan(4),
